@@ -337,6 +337,19 @@ CHECKS.update({
     ),
 })
 
+CHECKS.update({
+    "C27": (
+        "generated pools of forms/expressions sharing measures and metadata dicts x generated sequences of ~45 public algorithms and operators; oracle = snapshot invariants (repr, hash, own structural key, recomputed signature/arguments/coefficients, deep copies of metadata) after every step",
+        "Hypothesis-generated pools (forms whose integrals share Measure objects and user-owned metadata dicts, some already "
+        "carrying degree estimates; expressions; affine and non-affine cells) and step sequences over compute_form_data with "
+        "random options, every apply_* pass, grouping, derivative/action/adjoint/lhs/rhs/replace/extract_blocks, signature, "
+        "comparisons, hashing, form algebra and expression constructors; results are pooled so that later steps act on objects "
+        "sharing structure with earlier inputs; after each step every pool member and every user dict must equal its snapshot.",
+        "Own structural key and deep copies define 'unchanged'; signature/arguments recomputed from a re-assembled Form.",
+        "4/C27",
+    ),
+})
+
 NOT_YET = {}
 
 
